@@ -1009,6 +1009,92 @@ def check_container_writers(ctx, pool, tmp):
                                   _rp('container_writer', alg, kw, format='openssh', writer=who.split(',')[0], data=text.hex(), comment=_b(cm)))
 
 
+def check_line_endings(ctx, pool, tmp):
+    """Every armoured export re-read after its line endings / the text after its footer were rewritten (CRLF, CR only,
+    trailing blanks, blank lines, form feed, no final newline, two blocks per file).  The reference readers (ssh-keygen,
+    cryptography) decide what must be accepted: whatever one of them reads as the expected key, asyncssh must too."""
+    import asyncssh
+    from cryptography.hazmat.primitives import serialization as ser
+    rewrites = [('CRLF', lambda t: t.replace(b'\n', b'\r\n')), ('CR only', lambda t: t.replace(b'\n', b'\r')),
+                ('blanks after footer', lambda t: t[:-1] + b' \t \n'), ('blank lines after footer', lambda t: t + b'\n \n\t\n'),
+                ('form feed after footer', lambda t: t[:-1] + b'\x0c\n'), ('no final newline', lambda t: t[:-1]),
+                ('CRLF, no final newline', lambda t: t.replace(b'\n', b'\r\n')[:-2]),
+                ('CRLF, blank lines after footer', lambda t: (t + b'\n\n').replace(b'\n', b'\r\n'))]
+    done = set()
+    n = 0
+    for alg, kw, key in pool:
+        if alg in done or alg not in ('ssh-ed25519', 'ssh-rsa', 'ecdsa-sha2-nistp256', 'ssh-dss'):
+            continue
+        done.add(alg)
+        ref_priv = _pyca_canon_private(key.pyca_key)
+        ref_pub = _pyca_canon_public(key.pyca_key.public_key())
+        want_line = _pubfields(key.export_public_key('openssh'))
+        exports = []
+        for fmt in ('openssh', 'pkcs8-pem', 'pkcs1-pem'):
+            try:
+                exports.append(('private', fmt, key.export_private_key(fmt)))
+            except asyncssh.KeyExportError:
+                pass
+        for fmt in ('pkcs8-pem', 'pkcs1-pem', 'rfc4716'):
+            try:
+                exports.append(('public', fmt, key.export_public_key(fmt)))
+            except asyncssh.KeyExportError:
+                pass
+        for kind_, fmt, text in exports:
+            for rname, fn in rewrites:
+                t = fn(text)
+                ctx.note_case(('line-endings', alg, kind_, fmt, rname), nontrivial=True)
+                refs = []
+                path = os.path.join(tmp, 'le-%d' % n)
+                n += 1
+                _write(path, t, 0o600)
+                with warnings.catch_warnings():
+                    warnings.simplefilter('ignore')
+                    try:
+                        if kind_ == 'private':
+                            k = (ser.load_ssh_private_key if fmt == 'openssh' else ser.load_pem_private_key)(t, None)
+                            if _pyca_canon_private(k) == ref_priv:
+                                refs.append('cryptography')
+                        elif fmt != 'rfc4716' and _pyca_canon_public(ser.load_pem_public_key(t)) == ref_pub:
+                            refs.append('cryptography')
+                    except Exception:          # noqa
+                        pass
+                if SSH_KEYGEN and alg in KEYGEN_TYPES:
+                    args = ['-y', '-f'] if kind_ == 'private' else ['-i', '-m', {'pkcs8-pem': 'PKCS8', 'pkcs1-pem': 'PEM', 'rfc4716': 'RFC4716'}[fmt], '-f']
+                    rc, out, err = _run(args + [path])
+                    if rc == 0 and _pubfields(out) == want_line:
+                        refs.append('ssh-keygen')
+                if rname == 'CR only' and 'ssh-keygen' not in refs:
+                    # bare CR line ends: only cryptography's PEM reader takes them, OpenSSH does not - information only
+                    ctx.count('sweep.line_endings.cr_only_read_by_' + ('_'.join(refs) or 'nobody'))
+                    continue
+                if not refs:
+                    ctx.count(f'sweep.line_endings.no_reference_reads.{rname}')
+                    continue
+                try:
+                    k2 = asyncssh.import_private_key(t) if kind_ == 'private' else asyncssh.import_public_key(t)
+                    good = k2.public_data == key.public_data and (kind_ == 'public' or _same_private(k2, key))
+                    err = 'a different key'
+                except Exception as e:         # noqa
+                    good = False
+                    err = f'{type(e).__name__}: {e}'
+                ctx.count('sweep.line_endings.' + ('ok' if good else 'fail'))
+                if not good:
+                    ctx.failing_input(f'{alg} {kind_} key exported as {fmt} and rewritten [{rname}] is read by {" and ".join(refs)} but '
+                                      f'asyncssh gives {err}',
+                                      _rp('line_endings', alg, kw, format=fmt, which=kind_, rewrite=rname, data=t.hex()))
+        # two CRLF blocks in one file
+        try:
+            two = (key.export_private_key('pkcs8-pem') + key.export_private_key('openssh')).replace(b'\n', b'\r\n')
+            lst = asyncssh.public_key._decode_private_list(two, None, None) if hasattr(asyncssh.public_key, '_decode_private_list') else None
+            if lst is not None and (len(lst) != 2 or not all(_same_private(x, key) for x in lst)):
+                ctx.failing_input(f'a CRLF file holding the {alg} key twice (pkcs8-pem, openssh) is read as {len(lst)} key(s)',
+                                  _rp('line_endings', alg, kw, format='list', which='private', rewrite='CRLF, two blocks', data=two.hex()))
+        except Exception as e:                 # noqa
+            ctx.failing_input(f'a CRLF file holding the {alg} key twice cannot be read: {type(e).__name__}: {e}',
+                              _rp('line_endings', alg, kw, format='list', which='private', rewrite='CRLF, two blocks'))
+
+
 # ---------------------------------------------------------------------------------------------
 
 def run_sweep(ctx, pool):
@@ -1062,7 +1148,8 @@ def run_sweep(ctx, pool):
         for fn, args in ((check_key_lists, (ctx, pool, tmp, rng)), (check_ssh_keygen, (ctx, pool, tmp, rng, thorough)),
                          (check_openssl_cli, (ctx, pool, tmp)), (check_certificates, (ctx, pool, tmp)),
                          (check_file_entry_points, (ctx, pool, tmp)), (check_optional_fields, (ctx, pool, tmp)),
-                         (check_security_keys, (ctx, pool, tmp)), (check_container_writers, (ctx, pool, tmp))):
+                         (check_security_keys, (ctx, pool, tmp)), (check_container_writers, (ctx, pool, tmp)),
+                         (check_line_endings, (ctx, pool, tmp))):
             try:
                 fn(*args)
             except Exception as e:             # noqa  an import/export raised where the oracle expected a result
@@ -1078,7 +1165,7 @@ def run_sweep(ctx, pool):
         for need in ('sweep.wrong_passphrase.rejected', 'sweep.cross_type_passphrase.ok', 'sweep.pyca.write_private.ok',
                      'sweep.pyca.read_private.ok.pkcs8-der', 'sweep.lists.private.openssh', 'sweep.cert.roundtrip.ok',
                      'sweep.file_entry.private.ok', 'sweep.file_entry.public.ok', 'sweep.optional_fields.ok',
-                     'sweep.sk.ok', 'sweep.writers.ok'):
+                     'sweep.sk.ok', 'sweep.writers.ok', 'sweep.line_endings.ok'):
             if not d.get(need):
                 ctx.broke('vacuity:' + need, 'the sweep never reached this class')
         if not (d.get('sweep.public.export_refused.newline_comment') or ctx.cov['oracle'].get('failing_groups')):
